@@ -265,7 +265,7 @@ theorem step_root {w w' : PWorld} {t : Oid} {m : Name} {specs : List PathSpec} {
     obtain ⟨u', c1, c2, c3, c4, _⟩ := callWatcherP_installed w2' t m specs x p old (.ref vv) hs2
       (fun y hy => (r4.owned y hy).2.2) r4.dynKeys ⟨(r4.owned x hx).1, (r4.owned x hx).2.1⟩
       (fun a ha => by rw [hcbnone] at ha; cases ha)
-    simp only [dispatchP, c1, Except.ok.injEq] at hdisp
+    simp only [dispatchP, c1, ite_self, Except.ok.injEq] at hdisp
     subst hdisp
     obtain ⟨cw, cd⟩ := c4 (Or.inr hcbnone)
     have hinst' : Installed u' t m specs :=
